@@ -25,7 +25,8 @@ ASSUMPTIONS = ['A trade is a winner iff its net PnL > 0, a loser iff < 0; break-
                'formula documents; Sortino downside deviation may count the initial sample in its denominator (both N and N-1 accepted)',
                'relative tolerance 1e-9 (ratios 1e-7)']
 MIN_OBS = {'A_lists': 1500, 'A_degenerate_lists': 200, 'B_series': 400, 'C_sessions': 40, 'C_samples_compared': 120,
-           'C_spot_two_route_sessions': 10, 'C_samples_with_open_position': 30}
+           'C_spot_two_route_sessions': 10, 'C_samples_with_open_position': 30,
+           'C_market_orders_submitted_on_a_midnight_bar': 10}
 
 
 def close(a, b, tol=1e-9):
@@ -294,11 +295,28 @@ def _part_c(job):
         sc = spec['routes'][job['resting_buy_route']]['script']
         # (a far-away LIMIT buy below the price or a far-away STOP buy above it: both reserve quote at submission)
         sc.update(entry=rng.choice(['limit', 'stop']), entry_dist=0.2, cancel_policy='never', p_enter=1.0)
+    if job['i'] % 4 == 1:
+        # MARKET entries submitted exactly on the bar that closes at midnight: the order is executed at the end of that minute,
+        # after the route's active-order list was pruned, and the daily sample is taken right afterwards
+        r0 = spec['routes'][0]
+        if job['i'] % 8 == 1:
+            r0['timeframe'] = '1m'          # (the daily sample is taken after minute 1440 k: a 1m route decides on that very minute)
+            idxs = [1440 * k_ + d_ for k_ in range(1, days + 1) for d_ in (-1, 0)]
+        else:
+            per_day = 1440 // gen.TF_MIN[r0['timeframe']]
+            idxs = [per_day * k_ - 1 for k_ in range(1, days + 1)]
+        r0['script'].update(entry='market', enter_at=idxs, enter_side='long', sides='long', sl=0.004, tp=0.004)
+        midnight_entries = True
+    else:
+        midnight_entries = False
     if job.get('swap') and len(spec['routes']) == 2:
         spec['routes'] = spec['routes'][::-1]
     spec['options'] = {'generate_equity_curve': True}
     out = session.run_session(spec, snapshots=False)
     viol, cnt = [], {'C_sessions': 1}
+    if midnight_entries:
+        cnt['C_market_orders_submitted_on_a_midnight_bar'] = sum(
+            1 for e in out['events'] if e['k'] == 'submit' and e['type'] == 'MARKET' and (e['t'] - gen.T0) % 86400000 in (0, 60000))
     if spot and job['nsym'] == 2:
         cnt['C_spot_two_route_sessions'] = 1
     if out['error']:
